@@ -142,7 +142,8 @@ func genC07Shape(t *rapid.T) c07Shape {
 		s.Sig = "valid"
 	}
 	if dev("devmemo") {
-		s.Memo = rapid.SampledFrom([]string{"m", "hello world"}).Draw(t, "memo")
+		// visible memos, and memos a trimming or emptiness test may take for "no memo"
+		s.Memo = rapid.SampledFrom([]string{"m", "hello world", " ", "\t", "\n", " \r\n ", "\u00a0", "\u200b", "\x00", "0"}).Draw(t, "memo")
 	}
 	if dev("devtimeout") {
 		// past, current and future heights, and the boundaries of the signed / unsigned 64-bit ranges
